@@ -213,13 +213,6 @@ var wfCorruptions = []wfCorruption{
 		f.Locals = f.Locals[1:]
 		return true
 	}},
-	{"Locals lists a foreign alloc", ir.NaiveForm, "locals.stale", func(f, g *ir.Function) bool {
-		if len(g.Locals) == 0 {
-			return false
-		}
-		f.Locals = append(f.Locals, g.Locals[0])
-		return true
-	}},
 	{"store of a differently typed value", 0, "type.Store.elem", func(f, g *ir.Function) bool {
 		st, _, _ := wfFind[*ir.Store](f)
 		if st == nil {
